@@ -54,7 +54,13 @@ func (p *Program) Flatten(f *Func) *Func {
 	if d3, sub := p.paramObjDecl(f, declV); d3 != nil {
 		declV, gi.selSubst = d3, sub
 	}
-	bodyG, gch := gi.block(f.Body)
+	srcBody := f.Body
+	// a local closure's parameter object as its parameters (copies the body, literals included; rare)
+	if cb, cch := closureParamObjects(f.Info(), f.Pkg.Types, f.Body); cch {
+		srcBody = cb
+	}
+	bodyG, gch := gi.block(srcBody)
+	gch = gch || srcBody != f.Body
 	body0, tch := tailReturns(f.Info(), bodyG)
 	tch = tch || gch
 	// hand-written element loops as the range loops they stand for (see rangeLoops)
